@@ -1,7 +1,27 @@
 (** C19 — pinned statements (router half; the per-connection admission path is M-STACK). *)
-From Rumqtt Require Import Router.Model Router.Admission.
+From Rumqtt Require Import Router.Inv Router.NoPanic Router.NoPanicServe.
+From Rumqtt Require Import Router.Model Router.Admission Router.RunDefs.
 
 Theorem c19_clientid_rejected : forall st conn link,
   (In PLUS (c_client conn) \/ In DOLLAR (c_client conn) \/ In HASH (c_client conn) \/ In SLASH (c_client conn)) ->
   handle_new_connection st conn link = Ok st.
 Proof. exact clientid_rejected. Qed.
+
+Theorem c19_unique : forall st k1 k2 c1 c2,
+  RInv st -> slab_get (r_conns st) k1 = Some c1 -> slab_get (r_conns st) k2 = Some c2 ->
+  c_client c1 = c_client c2 -> k1 = k2.
+Proof. exact rinv_unique. Qed.
+
+Theorem c19_limit : forall st, RInv st -> slab_len (r_conns st) <= cf_max_connections (r_cfg st).
+Proof. exact rinv_limit. Qed.
+
+Theorem c19_unique_reachable : forall cfg st0 ops st k1 k2 c1 c2,
+  cfg_ok cfg -> init cfg = Ok st0 -> ops_wf ops -> run st0 ops = Ok st ->
+  slab_get (r_conns st) k1 = Some c1 -> slab_get (r_conns st) k2 = Some c2 ->
+  c_client c1 = c_client c2 -> k1 = k2.
+Proof. exact reachable_unique. Qed.
+
+Theorem c19_limit_reachable : forall cfg st0 ops st,
+  cfg_ok cfg -> init cfg = Ok st0 -> ops_wf ops -> run st0 ops = Ok st ->
+  slab_len (r_conns st) <= cf_max_connections cfg.
+Proof. exact reachable_limit. Qed.
